@@ -27,28 +27,28 @@ def check(pid, engine, category, text, note, technique, ref):
 
 checks = [
  check("C22", "ambient", "exploration",
-  "Each input (corpus files, seeded amplified documents that fill the iterated hash containers, apollo-smith byte strings) is driven through the real pipeline under a baseline and 6/24 perturbed trials - re-keyed hash maps via a simulator-owned ahash key source, id-counter skew, heap-layout skew, fresh thread - and in 4/16 real processes with genuine OS keys; all observable outputs must be byte-identical. Differential check of the code against itself, so no model can be wrong; sampling, not proof.",
+  "Each input (corpus files, seeded amplified documents that fill the iterated hash containers, apollo-smith byte strings) is driven through the real pipeline under a baseline and 6/24 perturbed trials - re-keyed hash maps via a simulator-owned ahash key source, id-counter skew, heap-layout skew, fresh thread, earlier unrelated work on the same thread (history) - and in 4/16 real processes with genuine OS keys; all observable outputs (serialisations in several settings, diagnostics text and JSON in order, introspection JSON, apollo-smith documents, operations and responses) must be byte-identical. Differential check of the code against itself, so no model can be wrong; sampling, not proof.",
   "trusts nothing but byte comparison of Display/JSON outputs; Debug output and iteration order of unordered-map-typed values are excluded; std RandomState and once-per-process statics are covered by thread/process re-sampling (replay input-exact, key-probabilistic)",
   "deterministic simulation of ambient state: seeded re-keying of hash maps, counter/heap/thread perturbation, cross-process digest comparison",
   "DESIGN.md 3.1"),
  check("C26", "asyncsim", "fault_enumeration",
-  "Seeded fault injection at the resolver seam (errors, nulls, wrong kinds/types, failing list iterators, unknown/foreign object types, partial-execution skips) over generated valid requests, each run refined against a small reference executor written from the spec; data compared exactly, errors as path multisets against the no-cancellation reference, plus direct invariants on the real response. Sampling, not proof.",
-  "trusts parser/validator/typing (C05,C17,C18) and coerce_variable_values (C28); reference executor hand-written from spec section 6 + rustdoc (DESIGN appendix A); error messages/order not compared",
+  "Seeded fault injection at the resolver seam (errors, nulls, wrong kinds/types, failing list iterators, unknown/foreign object types, partial-execution skips) over generated valid requests, each run refined against a small reference executor written from the spec; data compared exactly, errors as path multisets against the reference with and without cancellation, error locations, ResolveInfo contents (coerced arguments, merged field selections), response format, plus a second execution under other hash keys for responses with errors. Sampling, not proof.",
+  "trusts parser/validator/typing (C05,C17,C18) and coerce_variable_values (C28); reference executor hand-written from spec section 6 + rustdoc (DESIGN appendix A); error messages and the order of errors are not compared with the reference (only required to be independent of hash keys)",
   "deterministic simulation: seeded fault injection at the ObjectValue seam, refinement against a reference executor",
   "DESIGN.md 3.2, appendix A"),
  check("C27", "asyncsim", "exploration",
-  "execute_async runs under a simulator-owned single-task discrete-event executor: seeded readiness/wake-up schedules (pending counts, immediate/timer/double wakes, spurious polls, all-ready to dense) per resolver future and stream item, long lists to cross batching thresholds, plus exhaustive enumeration of 7 scripts per scripted point for small requests; oracle is execute_sync on the same world (response and resolver/iterator call log), plus mutation seriality, lost-wake-up, poll-after-completion and leak invariants.",
-  "oracle is the code's own sync path (a defect identical in both paths is C26's); sim futures obey the Future contract; one task, one waker",
+  "execute_async runs under a simulator-owned single-task discrete-event executor: seeded readiness/wake-up schedules (pending counts, immediate/timer/double wakes, spurious polls, all-ready to dense) per resolver future and stream item, long lists to cross batching thresholds, plus exhaustive enumeration of 7 scripts per scripted point for small requests; oracle is execute_sync on the same world (response and resolver/iterator call log), plus mutation seriality, lost-wake-up, poll-after-completion and leak invariants; in a third of the runs the executor hands out a new waker per poll and ignores stale ones.",
+  "oracle is the code's own sync path (a defect identical in both paths is C26's); sim futures obey the Future contract; one task",
   "deterministic simulation: discrete-event executor with seeded and bounded-exhaustive readiness schedules, sync run as oracle",
   "DESIGN.md 3.3"),
  check("C30", "sched+simalloc", "exploration",
-  "Seeded operation histories on names and nodes (all constructors, clone/drop, locations incl. ids next to the tag bit, conversions to Arc<str>, copy-on-write with injected Clone panics, eq/ord/hash) spread over 1-4 simulated threads under the baton scheduler, a reference model checked after every step (text, location, static/heap, strong count of every backing string, alias groups), an instrumented allocator (leaks, double frees, 0xDD-poisoned quarantine); thorough adds Miri tiers (model histories under Miri's checks; free-running threads under Miri's seeded scheduler with race detection).",
+  "Seeded operation histories on names and nodes (all constructors, clone/drop, bulk clones up to 70 000 live handles, locations incl. ids next to the tag bit, conversions to Arc<str>, copy-on-write with injected Clone panics, eq/ord/hash, Node<str> incl. the empty string) spread over 1-4 simulated threads under the baton scheduler, a reference model checked after every step (text, location, static/heap, strong count of every backing string, alias groups), an instrumented allocator (leaks, double frees, 0xDD-poisoned quarantine); Miri tiers (a slice in quick, full in thorough: model histories under Miri's checks; free-running threads under Miri's seeded scheduler with race detection).",
   "native tier: operations atomic w.r.t. the scheduler (interleavings inside Arc's atomics only in the Miri tier); use-after-free seen through poison+model, not traps; with_location precondition respected",
   "deterministic simulation: seeded histories x thread schedules with reference model, instrumented allocator, Miri seeded scheduler",
   "DESIGN.md 3.4"),
  check("C31", "sched", "exploration",
-  "Seeded interleavings of 2-4 simulated threads doing id allocation, parsing, validation against one shared Valid<Schema>, diagnostics rendering, serialisation and introspection, with scheduling points inside every access of the id counter's atomic and at every lazy static; start values incl. the 63-bit wrap window, warm and cold (fresh process) statics; invariants: ids distinct until a wrap, never reserved, pack/unpack round trip, progress, every task's output equals its sequential execution. Thorough adds a Miri tier (free-running cold threads, race/UAF detection, sequential equivalence).",
-  "baton scheduler is sequentially consistent and does not interleave inside a lazy static's initialiser (no-yield region); that window is the Miri tier's; duplicates after an observed wrap are permitted",
+  "Seeded interleavings of 2-4 simulated threads doing id allocation, parsing (also under unusual source paths), validation against one shared Valid<Schema> and against schemas derived from it, execution, diagnostics rendering, serialisation and introspection, with scheduling points inside every access of the id counter's atomic and at every lazy static; start values incl. the 63-bit wrap window, warm and cold (fresh process) statics; invariants: ids distinct until a wrap, never reserved, pack/unpack round trip, progress, every task's output equals its sequential execution. A Miri tier (two jobs in quick, six in thorough: free-running cold threads, shared-schema and cold-schema modes, race/UAF detection, sequential equivalence).",
+  "baton scheduler is sequentially consistent and does not interleave inside a lazy static's initialiser (no-yield region); that window is the Miri tier's; duplicates after an observed wrap are permitted, and outputs that involve the shared schema are then not compared",
   "deterministic simulation: baton thread scheduler (random/sticky/PCT) at hooked atomics and lazy statics, sequential-equivalence oracle, Miri seeded scheduler",
   "DESIGN.md 3.5"),
 ]
@@ -67,8 +67,8 @@ manifest = {
    {"name": "asyncsim", "path": "harness/src/exec", "serves_properties": ["C26", "C27"], "kind_free_text": "single-task discrete-event executor with virtual clock; scripted resolver futures/streams; seeded resolver world with fault injection; reference executor"},
    {"name": "sched", "path": "harness/src/sched", "serves_properties": ["C30", "C31"], "kind_free_text": "baton thread scheduler: real threads, one runs at a time, seeded random/sticky/PCT/replay strategies at hook points; minimisable explicit schedules"},
    {"name": "simalloc", "path": "harness/src/simalloc.rs", "serves_properties": ["C30"], "kind_free_text": "instrumented global allocator: tracked window, double-free detection, poisoned quarantine, leak report"},
-   {"name": "ambient", "path": "harness/src/props/c22.rs", "serves_properties": ["C22"], "kind_free_text": "ambient-state perturbation: vendored ahash with simulator-owned key source, id-counter/heap/thread skew, cross-process layer"},
-   {"name": "miri", "path": "harness/miri", "serves_properties": ["C30", "C31"], "kind_free_text": "Miri tiers (thorough): seeded Miri scheduler, UB/race/leak detection; one Miri seed is one replayable execution"},
+   {"name": "ambient", "path": "harness/src/props/c22.rs", "serves_properties": ["C22"], "kind_free_text": "ambient-state perturbation: vendored ahash with simulator-owned key source, id-counter/heap/thread/history skew, cross-process layer"},
+   {"name": "miri", "path": "harness/miri", "serves_properties": ["C30", "C31"], "kind_free_text": "Miri tiers (a slice in quick, full in thorough): seeded Miri scheduler, UB/race/leak detection; one Miri seed is one replayable execution"},
  ],
  "checks": checks,
  "notes": "Five properties are claimed (C22, C26, C27, C30, C31); the other 28 are pure functions of their input and are listed as not applicable with the reason (DESIGN.md section 4). Exit codes: 0 held, 1 violation (with VIOLATION line), 2 harness/build error. known_findings.json lists two genuine C26 defects, both repaired in /repo with fix: commits.",
